@@ -130,10 +130,188 @@ PROPS['C07'] = {
 }
 
 
+def push_nontrivial(line):
+    # some patch of the workspace was applied and something interesting happened:
+    # a failure (exit=1), a reject file, a backup, a rename or more than one invocation
+    out = line.split('|=>|')[-1]
+    return 'exit=1' in out or '2e72656a:' in out or out.count('exit=') > 1 or '2e70632f70' in out
+
+
+def push_hist(c, d):
+    out = c.split('|=>|')[-1]
+    keys = ['invocations=%d' % out.count('exit=')]
+    for r in out.split('|'):
+        m = re.search(r'exit=(\d+)', r)
+        if m:
+            keys.append('exit=' + m.group(1))
+        if '2e72656a:' in r:
+            keys.append('with-rej')
+        if re.search(r'2e70632f70[0-9a-f]*2f', r):
+            keys.append('with-backups')
+    inv = c.split('|=>|')[0]
+    for opt in ('--dry-run', '--mmap', '-v', '-q', '--backup always', '--backup never', '-A multiapply', '--stats', '--color always'):
+        if opt in inv:
+            keys.append('opt:' + opt)
+    m = re.search(r'--threads (\d+)', inv)
+    if m:
+        keys.append('threads=' + m.group(1))
+    return keys
+
+
+PUSH_RULE = ("generated workspace: 1-4 files (0-8 lines over a small alphabet, 30% 'rich' lines with \\, -, +, @@, tabs, CR, "
+             "0xff, missing final newline; modes 644/755), series of 1-4 patches, each 1-3 file patches produced as unified "
+             "diffs (context 0-3) of random edit scripts against the generator's idea of the tree: modify / create / delete / "
+             "rename(+edits) / mode change, header dialects plain, timestamps, git, quoted, .orig, strip -p0/-p1/-p2 in various "
+             "spellings, garbage between file patches, 45% of workspaces with one deliberately failing patch; 1-3 consecutive "
+             "invocations (goals -a, N, name, none; backup modes and counts; fuzz; presentation options). The real cmd::run is "
+             "executed in-process in a temp dir with a hard-linked twin of every file and a sentinel outside. distinct = hash of "
+             "the input; non-trivial = a failing push, a reject file, a quilt backup or more than one invocation")
+
+
+def push_jobs(extra_quick, extra_thorough, nq=6000, nt=150000):
+    return [{'quick': ['push', 'seed={seed}', 'n=%d' % nq] + extra_quick,
+             'thorough': ['push', 'seed={seed}', 'n=%d' % nt] + extra_thorough}]
+
+
+PUSH_TRUSTED = ["abstract file system RQ/Model/FS.lean stands for the kernel (lexical paths, no symlinks, atomic operations)",
+                "std::path, getopts, HashMap order, BufWriter modelled (RQ/Model/Path.lean, Series.lean; validated by the path/series engines)",
+                "diagnostics rendering (print_difference_to_closest_match), statistics, colours are not modelled: the model has no "
+                "presentation options at all; runs with -v/-vv/--stats/--color/-A must give the model's result"]
+
+PROPS['C10'] = {
+    'theorems': ['RQ.Push.C10_no_write', 'RQ.Push.applyLoop_dry_same_final'],
+    'verdict': 'C10',
+    'jobs': push_jobs(['dry=50', 'inv=2'], ['dry=50', 'inv=3']),
+    'nontrivial': lambda l: '--dry-run' in l.split('|=>|')[0],
+    'histogram': push_hist,
+    'rule': PUSH_RULE + "; here 50% of the invocations carry --dry-run; non-trivial = has a --dry-run invocation",
+    'explanation': "Theorem C10_no_write: with dryRun the model's world (files, inodes, operation trace) after push is the world "
+                   "before - for every workspace, failing or not. applyLoop_dry_same_final: the number of applied patches (hence "
+                   "exit status and failing patch) is the same as in a real run. On the implementation: for every --dry-run "
+                   "invocation the full snapshot (paths, bytes, modes, inodes, mtime, ctime) is identical before and after, and "
+                   "exit status and tree equal the model's.",
+    'trusted': PUSH_TRUSTED,
+    'assumptions': ["atime not observed"],
+}
+PROPS['C17'] = {
+    'theorems': ['RQ.Push.C17_refuse', 'RQ.Push.plan_refuse_differs', 'RQ.Push.plan_refuse_longer', 'RQ.Push.plan_refuse_unknown',
+                 'RQ.Push.plan_refuse_already_applied', 'RQ.Push.plan_refuse_no_series', 'RQ.Push.applyLoop_bad_patch',
+                 'RQ.Push.C17_apply_error'],
+    'verdict': 'SPEC',
+    'jobs': push_jobs(['state=85', 'inv=2'], ['state=85', 'inv=3']),
+    'nontrivial': lambda l: 'exit=1' in l.split('|=>|')[-1],
+    'histogram': push_hist,
+    'rule': PUSH_RULE + "; here 85% of the workspaces get a mutated .pc/applied-patches (prefix, longer than series, reordered, "
+            "edited, comment only, bad options), unknown / already applied / huge-number goals, and a deleted, truncated or "
+            "garbage patch file at a random position; non-trivial = some invocation exits 1",
+    'explanation': "Theorems: plan refuses (differs / longer / unknown goal / already applied goal / no series) => push = (error, "
+                   "world unchanged), exit 1; a missing or unparseable patch met while everything before applied => error with "
+                   "the world untouched. On the implementation: exit status and whole tree must equal pushSpec's (refusal = tree "
+                   "unchanged), no crash (exit 101 never), and equal the model's.",
+    'trusted': PUSH_TRUSTED,
+}
+PROPS['C19'] = {
+    'theorems': ['RQ.Push.C19_key_below', 'RQ.Push.C19_unsafe', 'RQ.Push.C19_refuse', 'RQ.Push.C19_patch_refused'],
+    'verdict': 'C19',
+    'jobs': push_jobs(['unsafe=75'], ['unsafe=75', 'inv=2']) + [{'quick': ['path', 'seed={seed}', 'n=20000', 'pieces=3'],
+                                                                 'thorough': ['path', 'seed={seed}', 'n=400000', 'pieces=4']}],
+    'nontrivial': lambda l: l.startswith('P|') or '2e2e' in l or '2f746d70' in l,
+    'histogram': push_hist,
+    'rule': PUSH_RULE + "; here 75% of the workspaces have a patch whose ---/+++/diff --git names are ../outside, ../../outside, "
+            "/tmp/..., a/../../outside, quoted \\056\\056/outside, '..', '' ... on either or both sides, at strip levels 0-2; "
+            "plus the path engine (every name of <= 3 pieces from {a,b,..,.,'',a.b,.x,x.,d.e.f} with/without leading '/', strip "
+            "0-4, and random byte names): model of components / strip / reject name vs std::path",
+    'explanation': "Theorems: a key obtained from a name by safeKey has only plain components (non-empty, not '.', '..', no '/'): "
+                   "every operation of the model stays lexically below the working directory; a name with root or '..' component "
+                   "or an empty name has no key; a file patch with such a name is refused by apply_one_file_patch before anything "
+                   "is loaded or written, and the patch (hence the push) fails with an error. On the implementation: a sentinel "
+                   "directory level above the working directory must be untouched after every invocation; exit/tree = model.",
+    'trusted': PUSH_TRUSTED + ["symlinks inside the tree that point outside are not modelled (lexical check only, as the property's statement)"],
+}
+PROPS['C15'] = {
+    'theorems': ['RQ.Push.C15_old_inodes_intact'],
+    'verdict': 'C15',
+    'jobs': push_jobs(['inv=3'], ['inv=4']),
+    'nontrivial': push_nontrivial,
+    'histogram': push_hist,
+    'rule': PUSH_RULE + "; every regular file present before an invocation is hard-linked into a twin directory first (cp -al), "
+            "both loaders (--mmap or not)",
+    'explanation': "Theorem C15_old_inodes_intact: in the model (abstract FS with inode numbers), after any push without injected "
+                   "fault every file object that existed before and is still reachable sits at the same path with the same bytes "
+                   "and mode (only .pc/applied-patches is appended in place): changed files, reject files and backups are fresh "
+                   "inodes. On the implementation: the hard-linked twin of every file outside .pc keeps bytes and mode after every "
+                   "invocation (modify, delete, rename, mode change, rollback after failure, re-saved unchanged files), and the set "
+                   "of files with new inode numbers equals the model's.",
+    'trusted': PUSH_TRUSTED + ["kernel: unlink + create gives a fresh inode; File::create truncates in place"],
+    'assumptions': [".pc (quilt metadata) is outside the claim: applied-patches is appended in place by design"],
+}
+PROPS['C16'] = {
+    'theorems': ['RQ.C16_strip_components', 'RQ.C16_comment_ignored', 'RQ.C16_default_strip', 'RQ.C16_choose_is_name', 'RQ.C16_choose_old_iff'],
+    'verdict': 'SPEC',
+    'jobs': push_jobs(['inv=2'], ['inv=3']) + [{'quick': ['series', 'seed={seed}', 'n=30000'], 'thorough': ['series', 'seed={seed}', 'n=600000']},
+                                               {'quick': ['path', 'seed={seed}', 'n=20000', 'pieces=3'], 'thorough': ['path', 'seed={seed}', 'n=400000', 'pieces=4']}],
+    'nontrivial': lambda l: not l.startswith('W|') or push_nontrivial(l),
+    'histogram': lambda c, d: push_hist(c, d) if c.startswith('W|') else ['engine=' + c[:1]],
+    'rule': PUSH_RULE + "; series engine: files of 0-4 lines built from patch names, -pN/-p N/--strip=N/--strip N/-R/--reverse, "
+            "clusters (-Rp1), duplicates, unknown and malformed options, '--', comments, blank lines, CRLF, invalid UTF-8; path "
+            "engine as for C19. Workspaces use -p0/-p1/-p2 patches with .orig-style differing names, files created/deleted "
+            "earlier in the run",
+    'explanation': "Theorems: stripPath n removes exactly n leading components (components (stripPath n raw) = drop n); comment and "
+                   "empty series lines are ignored, a bare name gets strip 1 and no -R; choose returns one of the two names, the "
+                   "old one iff that file currently exists (memory first, then disk). Series reader and path model are compared "
+                   "with the real read_series_file / std::path on every run; whole pushes must equal pushSpec, whose file-name "
+                   "choice is made on the flushed tree (consistency across split pushes).",
+    'trusted': PUSH_TRUSTED,
+}
+PROPS['C11'] = {
+    'module': 'RQ.Props.C11',
+    'theorems': ['RQ.Parse.C11_fuel', 'RQ.Parse.C11_noMatch', 'RQ.Parse.C11_wf', 'RQ.Parse.C11_alloc'],
+    'verdict': 'C11',
+    'jobs': [{'quick': ['parse', 'seed={seed}', 'n=60000'], 'thorough': ['parse', 'seed={seed}', 'n=1500000']},
+             {'quick': ['series', 'seed={seed}', 'n=20000'], 'thorough': ['series', 'seed={seed}', 'n=400000']}] +
+            push_jobs(['evil=70'], ['evil=70', 'inv=2'], nq=4000, nt=100000),
+    'nontrivial': lambda l: True,
+    'histogram': lambda c, d: (['engine=' + c[:1], 'impl=' + c.split('|=>|')[-1].split(' ')[0][:12]] if not c.startswith('W|') else push_hist(c, d)),
+    'rule': "parse engine: all testdata fixtures; sequences of 1-9 syntactically meaningful lines (file headers, git metadata, hunk "
+            "headers with counts / line numbers 0, 1, 2^63-1, 2^63, 2^64-1, 2^64, empty sides, hunk lines, '\\' lines, garbage, "
+            "unterminated lines), 10% truncated at a random byte, 5% with a random byte flipped, mutated fixtures; strip 0-3. "
+            "series engine as for C16. push engine with 70% of the workspaces carrying one such 'evil' patch file: the whole tool "
+            "must exit 0 or 1. distinct = hash of the input (every case counts as non-trivial: the property is about all bytes)",
+    'explanation': "Theorems about the model of parser.rs: C11_fuel (the fuel handed to every loop is never exhausted: the parser "
+                   "terminates on every byte string), C11_noMatch (the internal NoMatch never reaches the unreachable!() "
+                   "conversion), C11_wf (every parsed patch satisfies what later stages assert/unwrap/slice: a name present, "
+                   "Create/Delete have exactly one hunk, context counts within the sides, line numbers in 0..2^63), C11_alloc "
+                   "(stored lines <= consumed bytes). Implementation: no panic outcome (catch_unwind) on any generated input, "
+                   "result class and full parse dump equal the model's; series reader likewise; whole tool never exits by a crash.",
+    'trusted': ["stack depth: the Rust parser has no recursion (by reading); out-of-memory on genuinely huge inputs is outside the model"],
+}
+PROPS['C12'] = {
+    'theorems': ['RQ.Write.C12_partial', 'RQ.Write.C12_fixpoint', 'RQ.Write.C12_full_false'],
+    'verdict': 'C12',
+    'jobs': [{'quick': ['parse', 'seed={seed}', 'n=60000'], 'thorough': ['parse', 'seed={seed}', 'n=1500000']}],
+    'nontrivial': lambda l: '|=>|OK ' in l and 'hunks=[' in l,
+    'histogram': lambda c, d: ['impl=' + c.split('|=>|')[-1].split(' ')[0][:12], 'C12=' + (field(d, 'C12') or '?').split(':')[0]],
+    'rule': "parse engine as for C11; every accepted input is written with the real UnifiedPatchWriter, parsed again (strip 0) and "
+            "written again. non-trivial = the input parses to at least one file patch with a hunk",
+    'explanation': "Theorem C12_partial: for every byte string the parser accepts (any strip level, header or not), unless a file "
+                   "patch is a hunk-less no-op or carries a real name equal to /dev/null (the two documented classes, for which "
+                   "C12_full_false proves the full statement false), the written form is accepted and yields the same header, "
+                   "kinds, names, rename flags, modes, hashes and per hunk the same sides, start lines and function; "
+                   "C12_fixpoint: writing that patch again gives the same bytes. The same comparison is made on the real "
+                   "parse -> write -> parse -> write of every generated input.",
+    'assumptions': ["context counts (prefix/suffix) of hunks are not part of the property and may differ after re-parsing"],
+}
+
+
+def field(line, name):
+    m = re.search(r'(?:^| )' + re.escape(name) + r'=(\S*)', line)
+    return m.group(1) if m else None
+
+
 def replay_engine(path):
     first = ''
     for l in open(path):
         if l and not l.startswith('#'):
             first = l
             break
-    return {'A': 'apply-replay', 'T': 'fuzzpair-replay', 'D': 'dist-replay'}.get(first.split('|')[0], 'apply-replay')
+    return {'A': 'apply-replay', 'T': 'fuzzpair-replay', 'D': 'dist-replay', 'U': 'parse-replay', 'S': 'series-replay', 'P': 'path-replay', 'W': 'push-replay'}.get(first.split('|')[0], 'apply-replay')
